@@ -45,6 +45,8 @@ type ReplayDoc struct {
 	Detail   string          `json:"detail"`
 	Seed     uint64          `json:"seed"`
 	Case     json.RawMessage `json:"case"`
+	// Env holds the process-wide knobs (vector size, sort canary, mode) the case ran under.
+	Env []string `json:"env,omitempty"`
 }
 
 func runCompChild(engine, testName string, env []string, timeout time.Duration) (string, error) {
@@ -67,6 +69,15 @@ func runCompChild(engine, testName string, env []string, timeout time.Duration) 
 	return out.String(), err
 }
 
+// knobs returns the process-wide knob environment of process p.
+func (b *CompBatch) knobs(p int) []string {
+	env := append([]string(nil), b.Extra...)
+	if b.ExtraPerProc != nil {
+		env = append(env, b.ExtraPerProc(p)...)
+	}
+	return env
+}
+
 // Run executes the component batch and returns the exit code.
 func (b *CompBatch) Run() int {
 	if b.Procs == 0 {
@@ -76,6 +87,7 @@ func (b *CompBatch) Run() int {
 	start := time.Now()
 	results := make([]*compkit.Result, b.Procs)
 	errs := make([]string, b.Procs)
+	dead := make([]json.RawMessage, b.Procs)
 	var wg sync.WaitGroup
 	for p := 0; p < b.Procs; p++ {
 		wg.Add(1)
@@ -92,10 +104,15 @@ func (b *CompBatch) Run() int {
 			if b.ExtraPerProc != nil {
 				env = append(env, b.ExtraPerProc(p)...)
 			}
-			text, err := runCompChild(b.Engine, "TestBatch", env, time.Duration(b.BudgetS+600)*time.Second)
+			defer os.Remove(out + ".current")
+			text, err := runCompChild(b.Engine, "TestBatch", env, time.Duration(2*b.BudgetS+240)*time.Second)
 			data, rerr := os.ReadFile(out)
 			if rerr != nil {
 				errs[p] = fmt.Sprintf("no result (%v): %s", err, tail(text, 2000))
+				// The case the child was running when it died or was killed.
+				if cur, cerr := os.ReadFile(out + ".current"); cerr == nil && len(cur) > 0 {
+					dead[p] = cur
+				}
 				return
 			}
 			var r compkit.Result
@@ -109,8 +126,25 @@ func (b *CompBatch) Run() int {
 	wg.Wait()
 	merged := &compkit.Result{Probes: map[string]int{}, Faults: map[string]int{}}
 	infra := 0
+	deadReproduced := false
 	for p, r := range results {
 		if r == nil {
+			// Re-run the case the child died in, alone, in a fresh process: a
+			// reproducible crash inside the code under test, or a reproducible
+			// hang, is a violation; anything else is infrastructure trouble.
+			if dead[p] != nil && deadReproduced {
+				// Another child died the same way and its case reproduced; one report is enough.
+				continue
+			}
+			if dead[p] != nil {
+				doc := ReplayDoc{Engine: "comp-" + b.Engine, Property: b.Property, Class: "hang", Case: dead[p], Env: b.knobs(p)}
+				if cl, detail := replayComp(&doc, ""); cl != "" {
+					fmt.Printf("verif: component process %d died; its last case reproduces as %s\n", p, cl)
+					merged.Violations = append(merged.Violations, compkit.Violation{Class: cl, Detail: detail, Case: dead[p], Env: b.knobs(p)})
+					deadReproduced = true
+					continue
+				}
+			}
 			infra++
 			fmt.Printf("verif: component process %d failed: %s\n", p, errs[p])
 			continue
@@ -130,7 +164,10 @@ func (b *CompBatch) Run() int {
 		if len(merged.Samples) < 3 {
 			merged.Samples = append(merged.Samples, r.Samples...)
 		}
-		merged.Violations = append(merged.Violations, r.Violations...)
+		for _, v := range r.Violations {
+			v.Env = b.knobs(p)
+			merged.Violations = append(merged.Violations, v)
+		}
 		if r.Extra != nil {
 			if merged.Extra == nil {
 				merged.Extra = map[string]any{}
@@ -149,6 +186,7 @@ func (b *CompBatch) Run() int {
 	seen := map[string]bool{}
 	nViol := 0
 	exit := 0
+	unreproduced := 0
 	for _, v := range merged.Violations {
 		if seen[v.Class] {
 			continue
@@ -175,13 +213,14 @@ func (b *CompBatch) Run() int {
 		if known {
 			continue
 		}
-		doc := ReplayDoc{Engine: "comp-" + b.Engine, Property: b.Property, Class: v.Class, Detail: v.Detail, Seed: v.Seed, Case: v.Case}
+		doc := ReplayDoc{Engine: "comp-" + b.Engine, Property: b.Property, Class: v.Class, Detail: v.Detail, Seed: v.Seed, Case: v.Case, Env: v.Env}
 		// Replay the minimised case in a fresh process before reporting it.
 		path := writeCompReplay(&doc)
 		if cl, _ := replayComp(&doc, path); cl != v.Class {
 			fmt.Printf("verif: violation class %s did not reproduce in a fresh process (got %q); not reported\n", v.Class, cl)
 			os.Remove(path)
 			infra++
+			unreproduced++
 			continue
 		}
 		fmt.Printf("VIOLATION property=%s replay=%s\n  class=%s detail=%s\n", b.Property, path, v.Class, strings.ReplaceAll(v.Detail, "\n", " "))
@@ -216,7 +255,9 @@ func (b *CompBatch) Run() int {
 		return 2
 	}
 	fmt.Printf("verif: property=%s cases=%d distinct=%d violations=%d infra=%d wall=%.0fs probes=%v\n", b.Property, merged.Evaluations, merged.Distinct, nViol, infra, wall, merged.Probes)
-	if exit == 0 && (infra > b.Procs/4 || merged.Evaluations == 0) {
+	if exit == 0 && (infra > b.Procs/4 || merged.Evaluations == 0 || unreproduced > 0) {
+		// A violation that does not replay means the simulation is not
+		// deterministic or the replay file is incomplete: never a silent pass.
 		return 2
 	}
 	return exit
@@ -234,15 +275,27 @@ func writeCompReplay(doc *ReplayDoc) string {
 // replayComp replays a component case in a fresh process; it returns the
 // violation class observed ("" if none).
 func replayComp(doc *ReplayDoc, path string) (string, string) {
-	casePath := filepath.Join(Scratch(), "replay-case.json")
+	casePath := filepath.Join(Scratch(), fmt.Sprintf("replay-case-%d.json", time.Now().UnixNano()))
 	os.WriteFile(casePath, doc.Case, 0o644)
 	defer os.Remove(casePath)
-	out := filepath.Join(Scratch(), "replay-out.json")
+	out := casePath + ".out"
 	defer os.Remove(out)
 	engine := strings.TrimPrefix(doc.Engine, "comp-")
-	text, _ := runCompChild(engine, "TestReplay", []string{"VERIF_REPLAY=" + casePath, "VERIF_OUT=" + out}, 10*time.Minute)
+	timeout := 10 * time.Minute
+	if doc.Class == "hang" {
+		timeout = 2 * time.Minute
+	}
+	start := time.Now()
+	text, _ := runCompChild(engine, "TestReplay", append([]string{"VERIF_REPLAY=" + casePath, "VERIF_OUT=" + out}, doc.Env...), timeout)
 	data, err := os.ReadFile(out)
 	if err != nil {
+		// No result: the process died or had to be killed.
+		if time.Since(start) >= timeout {
+			return "hang", fmt.Sprintf("the case alone, in a fresh process, did not finish within %v of wall time (the code under test blocks or spins)", timeout)
+		}
+		if fn := crashFrame(text); fn != "" {
+			return "crash", "the process crashed inside the code under test: " + firstLine(text, "panic: ", "fatal error: ") + " at " + fn
+		}
 		return "", tail(text, 2000)
 	}
 	var r compkit.Result
@@ -250,4 +303,49 @@ func replayComp(doc *ReplayDoc, path string) (string, string) {
 		return "", text
 	}
 	return r.Violations[0].Class, r.Violations[0].Detail
+}
+
+// crashFrame returns the innermost non-runtime frame of a Go crash dump if it
+// lies in bigslice itself (not in the simulator or the test), else "".
+func crashFrame(text string) string {
+	i := strings.Index(text, "panic: ")
+	if j := strings.Index(text, "fatal error: "); j >= 0 && (i < 0 || j < i) {
+		i = j
+	}
+	if i < 0 {
+		return ""
+	}
+	lines := strings.Split(text[i:], "\n")
+	inStack := false
+	for _, l := range lines {
+		if strings.HasPrefix(l, "goroutine ") {
+			if inStack {
+				break
+			}
+			inStack = true
+			continue
+		}
+		if !inStack || l == "" || strings.HasPrefix(l, "\t") {
+			continue
+		}
+		if strings.HasPrefix(l, "panic(") || strings.HasPrefix(l, "runtime.") || strings.HasPrefix(l, "testing.") || strings.HasPrefix(l, "internal/") || strings.HasPrefix(l, "sync.") || strings.HasPrefix(l, "reflect.") {
+			continue
+		}
+		if strings.HasPrefix(l, "github.com/grailbio/bigslice") {
+			return strings.TrimSpace(l)
+		}
+		return ""
+	}
+	return ""
+}
+
+func firstLine(text string, prefixes ...string) string {
+	for _, l := range strings.Split(text, "\n") {
+		for _, p := range prefixes {
+			if strings.HasPrefix(l, p) {
+				return l
+			}
+		}
+	}
+	return ""
 }
